@@ -35,8 +35,10 @@ let handle kind a =
       let refseq = bytes_of_hex a.(0) and start = n_of_dec a.(1) and ops = parse_cigar a.(2)
       and seq = bytes_of_hex a.(3) and quals = bytes_of_hex a.(4) in
       (match roundtrip default_sm refseq seq quals ops start with
-       | None -> Some "Panic"
-       | Some (cig, s) -> Some (fmt_cigar cig ^ " " ^ hex_of_bytes s))
+       | RInvalidInput -> Some "Err:InvalidInput"
+       | RWritePanic -> Some "Panic"
+       | RReadFail -> Some "ReadFail"
+       | ROk (cig, s) -> Some (fmt_cigar cig ^ " " ^ hex_of_bytes s))
   | "cont" ->
       (* a.(1): slices separated by '/', the first group is the compression header block *)
       (match split_on '/' a.(1) with
